@@ -348,6 +348,12 @@ def run(chk):
             per_point = bool(fa and fa[0] == "comp" and fa[1] == "ListComp" and len(fa[3]) == 1 and fa[3][0][0] in ("range", "iter") and not fa[3][0][2]
                              and any(w_ in fa[3][0][1].key() for w_ in ("facet_dual_vectors", "facet_normals", "facet_energies")))
             one_per = (per_point or not app) and len(fdefs) == 1 and fst[-1].key() == fdefs[0].key()
+        elif fst and not fdefs and app and okm:
+            # the lists are built directly in the attribute: self.wulff_facets = [[] for _ in <per dual point>], filled in place, stored once
+            fa = obj_init(fst[0]).as_atom() if fst[0].as_atom() and fst[0].as_atom()[0] == "obj" else fst[0].as_atom()
+            per_point = bool(fa and fa[0] == "comp" and fa[1] == "ListComp" and len(fa[3]) == 1 and fa[3][0][0] in ("range", "iter") and not fa[3][0][2]
+                             and any(w_ in fa[3][0][1].key() for w_ in ("facet_dual_vectors", "facet_normals", "facet_energies")))
+            one_per = per_point and len(fst) == 1
         elif fst and not fdefs and not app and okm:
             # grouped by a stable sort with one group per dual point (bincount minlength, checked above), stored as they come, none dropped
             fa = fst[-1].as_atom()
@@ -495,6 +501,14 @@ def run(chk):
         fx = w.ev("WulffConstruction._fix_wulff_mesh")
         call = [e for e in fx.events if e.kind == "call" and call_name(e.value.as_atom() or ()) == "order_and_triangulate_polygons"]
         okf = bool(call) and [x.key() for x in call[0].extra["args"]] == ["self.wulff_vertices", "self.wulff_facets", "self.facet_normals"]
+        if call and not okf:
+            # the same arguments by keyword (parameter names of the callee)
+            cal = w.funcs.get("order_and_triangulate_polygons")
+            pn = [a.arg for a in cal.args.args] if cal is not None else []
+            kw_ = dict(call[0].extra.get("kwargs") or ())
+            pos_ = list(call[0].extra["args"])
+            got = [pos_[i].key() if i < len(pos_) else (kw_[n].key() if n in kw_ else None) for i, n in enumerate(pn[:3])]
+            okf = got == ["self.wulff_vertices", "self.wulff_facets", "self.facet_normals"]
         chk.ob("R19.3", W, "WulffConstruction._fix_wulff_mesh", "ordering uses the construction's vertices, facet lists and facet normals", okf)
     if chk.want("R19.4"):
         # the construction runs its four stages, each once, unconditionally and in order: dual points, their hull, the dual of the hull, the mesh
